@@ -21,7 +21,6 @@ import (
 	"fmt"
 	"math/rand"
 	"os"
-	"path/filepath"
 	"sort"
 	"sync"
 	"time"
@@ -63,7 +62,6 @@ func main() {
 		"the table of documented settings in schema.go and the defaults model in defaults.go are the reference (written from the documentation comments, not derived from the loader)",
 		"flags: a flag that is not given means its documented flag default (the file side writes that default out explicitly)",
 	}
-	_ = os.Remove(filepath.Join(h.RunDir(prop), "child-stderr.log"))
 	schemaCoverage()
 	flagCoverage()
 
